@@ -110,6 +110,13 @@ var propSpecs = map[string]*PropSpec{
 		TrustedBase: []string{"tools/lang builds the table the program is compiled with (the same generated messages.go is used here)", "call sites that pass a non-constant key are counted and not checked", "keys marked with a leading underscore in errors.Message are the interpreter's flow-control signals, not messages (the source says so)", "isSupportedLanguage is a function of the table during one call"},
 		Extra:       c38Extra,
 	},
+	"C37": {
+		Patterns:    []string{"./..."},
+		Level:       "proof",
+		Explanation: "FormatDuration's printed day, hour, minute and second counts are the mixed-radix digits of |d| in whole seconds, in range, with a minus sign exactly for negative durations (proved for every duration); the string round trip through ParseDuration is a bounded stand-in reported under coverage.bounded and not counted in discharged",
+		TrustedBase: []string{"the integer part of Duration.Hours/Minutes/Seconds is the exact integer quotient", "fmt %d prints the integer it is given", "ParseDuration: bounded enumeration only (see coverage.bounded)"},
+		Extra:       c37Extra,
+	},
 	"C27": {
 		Patterns: []string{"./..."},
 		Level:    "proof",
